@@ -20,7 +20,7 @@ func verifReopen(ctx context.Context, ds *verifDS, first uint64, freq uint64) (*
 		cs, err = OpenStore(ctx, ds)
 	}
 	if cs != nil {
-		cs.powerTableFrequency = freq
+		verifSetFreq(cs, freq)
 	}
 	return cs, err
 }
@@ -38,13 +38,10 @@ func verifConsistent(ctx context.Context, cs *Store, ref *verifRef, when string)
 func VerifC10_CrashPut() {
 	ctx := context.Background()
 	ds := newVerifDS()
-	first := uint64(sym.Uint8("first"))
-	sym.Assume(first <= 2)
-	freq := uint64(sym.Uint8("freq"))
-	sym.Assume(sym.And(freq >= 1, freq <= 3))
+	first, freq := verifParams(2)
 	cs, err := CreateStore(ctx, ds, first, verifTableSeq(0))
 	sym.Assume(err == nil)
-	cs.powerTableFrequency = freq
+	verifSetFreq(cs, freq)
 	ref := &verifRef{first: first, tables: []gpbft.PowerEntries{verifTableSeq(0)}}
 	k := sym.Choice("history", 3)
 	for j := 0; j < k; j++ {
@@ -92,7 +89,7 @@ func VerifC10_CrashPut() {
 		cs3, err := OpenStore(ctx, ds)
 		sym.Assert(err == nil, "reopen-after-repeat")
 		if err == nil {
-			cs3.powerTableFrequency = freq
+			verifSetFreq(cs3, freq)
 			verifConsistent(ctx, cs3, after, "after-repeat-reopen")
 		}
 	}
